@@ -103,7 +103,8 @@ def cli_config(case, props, run=True):
                     if isinstance(o, AbstractParameter):
                         try:
                             t = o.tensor
-                            if t.is_floating_point() and not bool(torch.isfinite(t).all()):
+                            # NaN / inf, or a magnitude no initial point or plausible posterior reaches: the run has diverged
+                            if t.is_floating_point() and (not bool(torch.isfinite(t).all()) or float(t.abs().max()) > 1e8):
                                 nonfinite = True
                                 break
                         except Exception:
@@ -111,8 +112,11 @@ def cli_config(case, props, run=True):
                             break
             except Exception:
                 pass
+            outside = None
+            if not nonfinite and dic:
+                outside = _outside_declared_support(c19, case, dic)
             res["run"] = {"ok": False, "exception": type(e).__name__, "where": where, "message": str(e)[:200], "stage": "run" if res["counters"].get("cli_targets_evaluated") else "load",
-                          "nonfinite_state": nonfinite}
+                          "nonfinite_state": nonfinite, "outside_support": outside}
             res["counters"]["cli_failed_" + res["run"]["stage"]] = 1
     finally:
         ov.uninstall()
@@ -124,6 +128,43 @@ def cli_config(case, props, run=True):
     res["violations"] = out["violations"]
     res["counters"].update(out["counters"])
     return res
+
+
+def _outside_declared_support(c19, case, dic):
+    """id of a parameter that sits outside the bounds torchtree-cli declares for it (kept in its --debug output), or None"""
+    try:
+        kind, spec = c19.run_cli(["--debug"] + c19.argv_for(case))
+        if kind != "json":
+            return None
+        found = []
+
+        def rec(o):
+            if isinstance(o, dict):
+                if "id" in o and any(k.startswith("@") for k in o):
+                    found.append((o["id"], o.get("@lower"), o.get("@upper")))
+                for v in o.values():
+                    rec(v)
+            elif isinstance(o, list):
+                for v in o:
+                    rec(v)
+
+        rec(spec)
+        for pid, lo, hi in found:
+            if pid in dic and hasattr(dic[pid], "tensor"):
+                t = dic[pid].tensor.detach()
+                if (lo is not None and bool((t < lo).any())) or (hi is not None and bool((t > hi).any())):
+                    return str(pid)
+        if "tree" in dic and hasattr(dic["tree"], "node_heights"):
+            import numpy as np
+
+            tree = dic["tree"]
+            h = tree.node_heights.detach().numpy().reshape(-1)
+            for nd in tree.tree.postorder_node_iter():
+                if not nd.is_leaf() and any(h[nd.index] < h[ch.index] for ch in nd.child_node_iter()):
+                    return "tree (a parent below its child)"
+    except Exception:
+        return None
+    return None
 
 
 def well_behaved_cases(rng, n, subs=("advi", "map", "mcmc", "hmc")):
